@@ -38,12 +38,16 @@ def tasks(tier, seed):
     rnd = random.Random(f"c11/{seed}")
 
     def add(kind, n, K, k, P, gap, m=1, comp="superadditive_cached", **kw):
-        d = {"key": f"{kind}/n{n}/{comp}/{gap}/K={','.join(map(str, K))}/k={k}/P={P}/m={m}" + ("/anyclass" if kw.get("anyclass") else "") + ("/via_steps" if kw.get("via_steps") else ""), "kind": kind, "n": n, "K": K, "k": k, "P": P,
+        d = {"key": f"{kind}/n{n}/{comp}/{gap}/K={','.join(map(str, K))}/k={k}/P={P}/m={m}" + ("/anyclass" if kw.get("anyclass") else "") + ("/via_steps" if kw.get("via_steps") else "") + ("/twice" if kw.get("twice") else ""), "kind": kind, "n": n, "K": K, "k": k, "P": P,
              "gap": gap, "m": m, "computer": comp}
         d.update(kw)
         out.append(d)
     fam3, _ = F.family(3, tier, seed)
     add("search", 3, [], 3, 2, "exploitability", 2)
+    for P in (1, 2, 3):
+        add("search", 3, [], 2, P, "exploitability", 1, twice=True)
+        add("search", 3, [5], 2, P, "l1_norm", 2, twice=True)
+    add("search", 4, [], 1, 1, "exploitability", 1, twice=True)
     for K in fam3:
         unk = len(F.extras(3)) - len(K)
         for k in range(0, unk + 1):
@@ -96,7 +100,7 @@ def _draw(inp, j, n):
 def setup(params, inp, lg):
     n = params["n"]
     ass = []
-    for j in range(1, params["m"] + 3):
+    for j in range(1, 2 * params["m"] + 3):
         v = _draw(inp, j, n)
         if params.get("anyclass"):
             for S in range(1, 2 ** n):
@@ -162,6 +166,17 @@ def scenario(pk, params, inp):
             vals = _draw(inp, j + 1, n)
             refs.append([_ref_gap(pk, params, vals, set(start) | set(s), gapf) for s in sets])
         out["refs"] = refs
+        # the caller's game object must come back as it went in (the workers operate on copies), and a SECOND search on the same
+        # object must again report the gaps of start ∪ set - for every number of worker processes, one included
+        out["game_known_after"] = sorted(S for S in range(2 ** n) if bool(game.is_value_known(C(S))))
+        if params.get("twice"):
+            d0 = counter["j"]
+            actions2, values2 = pk.gameplay.sample_exploitabilities_of_action_sequences(
+                game, gen, gapf, samples=params["m"], max_size=k, processes=P)
+            sets2 = [[c.id for c in seq] for seq in actions2]
+            out["sets2"] = sets2
+            out["values2"] = [[values2[j][i] for i in range(len(sets2))] for j in range(params["m"])]
+            out["refs2"] = [[_ref_gap(pk, params, _draw(inp, d0 + j + 1, n), set(start) | set(s), gapf) for s in sets2] for j in range(params["m"])]
         return out
     if kind == "meta":
         vals = _draw(inp, 1, n)
@@ -228,6 +243,14 @@ def claims(params, inp, out, lg):
         for j in range(params["m"]):
             for i, s in enumerate(out["sets"]):
                 cl.append((f"gap-of-set:sample={j}:set={'+'.join(map(str, s))}", lg.eq(out["values"][j][i], out["refs"][j][i])))
+        cl.append(("callers-game-keeps-its-knowledge", out["game_known_after"] == sorted(start), "C11/search-changes-the-callers-game"))
+        if "sets2" in out:
+            cl.append(("second-search:every-set-exactly-once", sorted(map(sorted, out["sets2"])) == sorted(map(sorted, want)), "C11/second-search"))
+            for j in range(params["m"]):
+                for i, s in enumerate(out["sets2"]):
+                    if i < len(out["refs2"][j]):
+                        cl.append((f"second-search:gap-of-set:sample={j}:set={'+'.join(map(str, s))}", lg.eq(out["values2"][j][i], out["refs2"][j][i]),
+                                   "C11/second-search"))
         return cl
     if kind == "meta":
         cl.append(("meta-players-are-the-non-minimal-coalitions", out["players"] == F.extras(n) and out["nplayers"] == len(F.extras(n))))
@@ -271,11 +294,11 @@ def test_vectors(params):
     vecs = []
     if params.get("anyclass"):
         rnd = random.Random(params["key"])
-        return [{f"g{j}v{S}": Fraction(12 * rnd.randint(-50, 50)) for j in range(1, params["m"] + 3) for S in range(1, 2 ** n)} for _ in range(2)]
+        return [{f"g{j}v{S}": Fraction(12 * rnd.randint(-50, 50)) for j in range(1, 2 * params["m"] + 3) for S in range(1, 2 ** n)} for _ in range(2)]
     for t in range(2):
         d = {}
         games = F.sa_test_games(n, 31 + t, 3)
-        for j in range(1, params["m"] + 3):
+        for j in range(1, 2 * params["m"] + 3):
             for S in range(1, 2 ** n):
                 d[f"g{j}v{S}"] = games[(j + t) % 3][S]
         vecs.append(d)
